@@ -79,7 +79,7 @@ fn interpret(t: usize, code: u32) {
                 for s in h.tasks[t].sets_created.clone() {
                     if let Some(host::Entry { kind: host::Kind::Set { members }, .. }) = h.entry(s) {
                         let m = members.clone();
-                        if !h.tasks[t].cancel_sent {
+                        if !h.tasks[t].cancel_sent && !h.wakers_outlive_tasks {
                             violation("C22", "exit:set-left-behind", format!("task {t} exited but its waitable set {s} still exists (members {m:?})"));
                         } else if !m.is_empty() {
                             violation("C22", "cancel-exit:waitables-left-in-set", format!("task {t} exited after cancellation but waitables {m:?} are still joined to its set {s}"));
@@ -169,9 +169,9 @@ pub fn run(opts: &Opts, externals: &mut Vec<(String, External)>) -> &'static str
             });
         }
         let all_exited = with(|h| h.tasks.iter().all(|t| t.status == TaskStatus::Exited));
-        // externals alone do not keep the loop alive once every task is gone
-        let live_acts = acts.iter().filter(|a| !matches!(a, Action::External(_))).count();
-        if all_exited && live_acts == 0 {
+        // external actions still outstanding also run after every task is gone (e.g. a wake
+        // through a waker that outlived its task)
+        if all_exited && acts.is_empty() {
             return finish(opts, "done");
         }
         if acts.is_empty() {
